@@ -13,7 +13,7 @@ from .. import rt, zoo
 from ..harness import run_op
 
 LEVEL = "exploration"
-RUNS = {"quick": 12000, "thorough": 250000}
+RUNS = {"quick": 30000, "thorough": 600000}
 WALL = {"quick": 150, "thorough": 1500}
 RULE = (
     "one run = one seeded world (0-3 default_config_files entries, literal or glob, matching regular/empty/unreadable files, "
